@@ -100,7 +100,7 @@ func preciseJobs(scribble int64) (quick, thorough []*Job) {
 		quick = append(quick, &Job{Pkg: "", Func: "ZZ_C10_FailThenRecycle", Args: c, Bounds: bf, PoolPrecise: true})
 	}
 	brf := "Channel.ReadFrom streaming 2-3 chunks (one pooled buffer each) while a second writer uses Write1 and scribbles; pooled buffers havocked on Put; ALL interleavings"
-	for _, c := range [][]int64{{2, 1, 2, 1}, {1, 1, 2, 0}, {2, 0, 2, 1}, {0, 0, 2, 1}, {1, 0, 2, 1}} {
+	for _, c := range [][]int64{{2, 1, 2, 1}, {1, 1, 2, 0}, {2, 0, 2, 1}, {0, 0, 2, 1}, {1, 0, 2, 1}, {2, 1, 2, 3}, {1, 1, 1, 3}} {
 		quick = append(quick, &Job{Pkg: "", Func: "ZZ_C10_ReadFrom", Args: c, Bounds: brf})
 	}
 	thorough = append(thorough, &Job{Pkg: "", Func: "ZZ_C10_ReadFrom", Args: []int64{3, 1, 3, 1}, Bounds: brf})
